@@ -124,7 +124,7 @@ func main() {
 		run  func(h *H)
 	}
 	var tasks []task
-	tasks = append(tasks, task{"typed", func(h *H) { h.phaseTyped() }})
+	tasks = append(tasks, task{"typed", func(h *H) { h.phaseTyped() }}, task{"projection-tables", func(h *H) { h.phaseProjTables() }})
 	for sh := 0; sh < 6; sh++ {
 		tasks = append(tasks, task{fmt.Sprintf("proj/%d", sh), func(h *H) { h.phaseProj(sh, 6) }})
 	}
